@@ -422,6 +422,97 @@ def check_list_scheduler(src: Source, rep: Report) -> None:
            Loc(LIST_PY, tr.lineno, "ListScheduler.trash_event"), rem[0] if rem else "trash_event", "trash must remove the element")
 
 
+def check_delete_events(unit: CUnit, rep: Report) -> None:
+    """R6.4c: delete_events removes every entry of the handler: after the gap is filled with the last entry, the same index is
+    examined again (the moved-in entry may belong to the handler too); a non-matching index advances by exactly one."""
+    body = unit.body("delete_events")
+    hparam = unit.params("delete_events")[1]
+    loops = [n for n in body.walk() if n.kind in ("WhileStmt", "ForStmt")]
+    target = None
+    for lp in loops:
+        for n in lp.walk():
+            if n.kind == "IfStmt" and hparam in text(n.children[0]) and "event_handler" in text(n.children[0]):
+                target = (lp, n)
+                break
+        if target:
+            break
+    loc = Loc(HEAP_C, body.line, "delete_events")
+    if target is None:
+        rep.ob("R6.4-delete-all-entries", None, loc, "removal loop", "loop with the handler test not found")
+        return
+    lp, test = target
+    cond = strip(test.children[0])
+    idx = None
+    for n in cond.walk():
+        if n.kind == "ArraySubscriptExpr":
+            idx = text(n.children[1])
+    if lp.kind == "ForStmt":
+        parts = list(lp.children)
+        lbody = parts[-1]
+        inc = parts[-2] if len(parts) >= 3 else None
+    else:
+        lbody, inc = lp.children[1], None
+
+    def incs(n: CNode) -> int:
+        return sum(1 for x in n.walk() if x.kind == "UnaryOperator" and x.props.get("opcode") == "++" and text(x.children[0]) == idx) + \
+            sum(1 for x in n.walk() if x.kind == "CompoundAssignOperator" and x.props.get("opcode") == "+=" and text(x.children[0]) == idx)
+
+    def paths(n: CNode, matched: Optional[bool]):
+        """yield (matched?, increments, terminated) for the statement n"""
+        if n.kind == "CompoundStmt":
+            states = [(matched, 0, False)]
+            for c in n.children:
+                nxt = []
+                for (m, k, done) in states:
+                    if done:
+                        nxt.append((m, k, True))
+                        continue
+                    for (m2, k2, d2) in paths(c, m):
+                        nxt.append((m2, k + k2, d2))
+                states = nxt
+            return states
+        if n.kind == "IfStmt":
+            is_test = n is test
+            out = []
+            for (m2, k2, d2) in paths(n.children[1], True if is_test else matched):
+                out.append((m2, k2, d2))
+            if len(n.children) > 2:
+                out += paths(n.children[2], False if is_test else matched)
+            else:
+                out.append((False if is_test else matched, 0, False))
+            return out
+        if n.kind == "ContinueStmt":
+            return [(matched, 0, True)]
+        return [(matched, incs(n), False)]
+
+    result = paths(lbody, None)
+    extra = incs(inc) if inc is not None else 0
+    ok = True
+    detail = []
+    for m, k, done in result:
+        total = k + extra
+        detail.append(f"{'match' if m else 'no match'}: index advanced {total}x")
+        if m and total != 0:
+            ok = False
+        if m is False and total != 1:
+            ok = False
+    writes = [n for n in test.children[1].walk() if n.kind == "BinaryOperator" and n.props.get("opcode") == "=" and "--" in text(n.children[1])]
+    rep.ob("R6.4-delete-all-entries", ok and len(writes) == 1, Loc(HEAP_C, lp.line, "delete_events"), f"removal loop: {sorted(set(detail))}",
+           "after an entry of the handler is overwritten by the last heap entry the same index must be examined again (the "
+           "moved-in entry can belong to the handler as well), and a non-matching index must advance by one: otherwise a "
+           "trashed entry survives the counter reset and becomes live again")
+    # the heap property is rebuilt for every inner node afterwards
+    rebuild = [n for n in body.walk() if n.kind == "ForStmt" and any(c.kind == "CallExpr" and text(c.children[0]) == "bubble_down" for c in n.walk())]
+    okr = False
+    if len(rebuild) == 1:
+        parts = list(rebuild[0].children)
+        init, cnd, inc2 = parts[0], parts[1], parts[2]
+        okr = ("/ 2" in text(init.children[0].children[-1]) or ">> 1" in text(init.children[0].children[-1])) and ">= 1" in text(cnd) and "--" in text(inc2)
+    rep.ob("R6.4-delete-rebuilds-heap", okr, Loc(HEAP_C, rebuild[0].line if rebuild else body.line, "delete_events"),
+           "for (index = length / 2; index >= 1; index--) bubble_down", "after deleting from arbitrary positions every inner node must be "
+           "sifted down again (from length/2 down to 1)")
+
+
 def analyse(src: Source) -> List[Report]:
     rep = Report(ID, src)
     rep.explain(
@@ -478,6 +569,7 @@ def analyse(src: Source) -> List[Report]:
            "i + 1 < length, otherwise pickling loses or invents heap entries")
     rep.expect_min("R6.2-index-in-bounds", 40)
     rep.expect_min("R6.2-invariant-restored", 8)
+    check_delete_events(unit, rep)
     check_cdef(src, unit, rep)
     check_heap_scheduler(src, rep, unit)
     check_list_scheduler(src, rep)
@@ -521,6 +613,11 @@ MUTANTS = [
     Edit("delete_events: cache slot past the end", HEAP_C, "heap->heap_entries[heap->length] = heap->heap_entries[index];",
          "heap->heap_entries[heap->length + 1] = heap->heap_entries[index];", "R6.2"),
 ]
+MUTANTS.append(Edit("delete_events: moved-in entry not re-examined", HEAP_C,
+                    "            heap->heap_entries[current_index] = heap->heap_entries[--(heap->length)];\n            continue;\n",
+                    "            heap->heap_entries[current_index] = heap->heap_entries[--(heap->length)];\n", "R6.4"))
+MUTANTS.append(Edit("delete_events: heap rebuilt from length/4", HEAP_C, "for (uint index = heap->length / 2; index >= 1; index--)",
+                    "for (uint index = heap->length / 4; index >= 1; index--)", "R6.4"))
 TWINS = [
     Edit("C: shift as division", HEAP_C, "uint parent_position = position >> 1u;", "uint parent_position = position / 2;"),
     Edit("C: rename local", HEAP_C, "uint old_size = heap->size;\n", "uint old_size = heap->size; /* previous capacity */\n"),
